@@ -661,6 +661,9 @@ def local_propagation(modname: str, tree: ast.Module, singles: Dict[str, ast.AST
             loop.body = binds + loop.body
             log.append(f"{modname}.{fn.name}: loop over module constant expanded at line {loop.lineno}")
         ast.fix_missing_locations(fn)
+        # N5b first-match loops over a literal table (an extra module constant or a new local): `for k, v in ((k1, v1), ..): if P(k): return v`
+        # and `for k, v in TABLE: if P(k): X(v); break` [else: E]  ->  the if / elif chain they stand for
+        _unroll_tables(modname, fn, singles, log)
 
         changed = True
         guard = 0
@@ -731,6 +734,26 @@ def local_propagation(modname: str, tree: ast.Module, singles: Dict[str, ast.AST
                         log.append(f"{modname}.{fn.name}: single-use temporary {name} folded into the next statement")
                         changed = True
                         break
+                    # coalescing: `T = expr` ... `V = T` with T a new local used nowhere after the copy and V untouched in between  ->  `V = expr`
+                    # (what inlining a helper that returns its locals leaves behind: `new_start = f(start)` ... `start = new_start`)
+                    if phase == "post" and _is_new_local(modname, fn, name):
+                        copies = [(j, c_) for j, c_ in enumerate(blk) if j > i and isinstance(c_, ast.Assign) and len(c_.targets) == 1 and isinstance(c_.targets[0], ast.Name)
+                                  and isinstance(c_.value, ast.Name) and c_.value.id == name]
+                        if len(copies) == 1:
+                            j, cp = copies[0]
+                            V = cp.targets[0].id
+                            between = blk[i + 1:j]
+                            touched = any(isinstance(n_, ast.Name) and n_.id == V for b_ in between for n_ in ast.walk(b_))
+                            later_use = any(isinstance(n_, ast.Name) and n_.id == name for b_ in blk[j + 1:] for n_ in ast.walk(b_))
+                            outside = [n_ for n_ in loads if not any(n_ is x_ for b_ in blk[i:j + 1] for x_ in ast.walk(b_))]
+                            if not touched and not later_use and not outside and V != name:
+                                for n_ in loads:
+                                    n_.id = V
+                                s.targets[0].id = V
+                                blk.pop(j)
+                                log.append(f"{modname}.{fn.name}: {name} coalesced with {V}")
+                                changed = True
+                                break
                     # local compiled pattern
                     if isinstance(v, ast.Call) and _origin(imp, v.func) == "re.compile" and v.args and imp.get("re") == "re" \
                             and all(k.arg == "flags" for k in v.keywords) and len(v.args) <= 2 and _pure_elt(v.args[0], imp) \
@@ -855,6 +878,82 @@ def _is_new_local(modname: str, fn: ast.AST, name: str) -> bool:
     # in an extra function (one the reference tree does not have) nothing is folded: it is inlined first, and its locals are then
     # judged against the reference function they end up in
     return known
+
+
+def _table_rows(e: ast.AST):
+    """rows of a literal table: a tuple/list display of tuple displays whose cells are constants, names or dotted names"""
+    if not isinstance(e, (ast.Tuple, ast.List)) or not (1 <= len(e.elts) <= 8):
+        return None
+    rows = []
+    for r in e.elts:
+        cells = list(r.elts) if isinstance(r, (ast.Tuple, ast.List)) else [r]
+        if not all(isinstance(c, ast.Constant) or _dotted(c) is not None for c in cells):
+            return None
+        rows.append((cells, isinstance(r, (ast.Tuple, ast.List))))
+    return rows
+
+
+def _unroll_tables(modname: str, fn: ast.AST, singles: Dict[str, ast.AST], log: List[str]) -> None:
+    for owner, blk in list(_blocks(fn)):
+        for i, loop in enumerate(list(blk)):
+            if not isinstance(loop, ast.For) or loop not in blk:
+                continue
+            it = loop.iter
+            table = None
+            drop_local = None
+            if isinstance(it, ast.Name) and it.id in singles and _store_count(fn, it.id) == 0:
+                table = singles[it.id]
+            elif isinstance(it, ast.Name) and _store_count(fn, it.id) == 1 and _is_new_local(modname, fn, it.id):
+                binds = [s_ for s_ in fn.body if isinstance(s_, (ast.Assign, ast.AnnAssign)) and getattr(s_, "value", None) is not None and isinstance(
+                    s_.targets[0] if isinstance(s_, ast.Assign) else s_.target, ast.Name) and (s_.targets[0] if isinstance(s_, ast.Assign) else s_.target).id == it.id]
+                uses = [n for n in _walk_own(fn) if isinstance(n, ast.Name) and n.id == it.id and isinstance(n.ctx, ast.Load)]
+                if len(binds) == 1 and len(uses) == 1:
+                    table, drop_local = binds[0].value, binds[0]
+            elif isinstance(it, (ast.Tuple, ast.List)):
+                continue  # a literal written in place is how the reference code itself loops (e.g. over tag names): left alone
+            rows = _table_rows(table) if table is not None else None
+            if rows is None:
+                continue
+            tgt = loop.target
+            names = [t.id for t in tgt.elts] if isinstance(tgt, (ast.Tuple, ast.List)) and all(isinstance(t, ast.Name) for t in tgt.elts) else (
+                [tgt.id] if isinstance(tgt, ast.Name) else None)
+            if names is None or any(len(cells) != len(names) for cells, _ in rows) or (len(names) > 1 and not all(is_t for _, is_t in rows)):
+                continue
+            if len(names) < 2:
+                continue  # only key/value dispatch tables; a loop over a plain list of values is an ordinary loop
+            body_nodes = [n for b in loop.body for n in [b, *_walk_own(b)]]
+            if any(isinstance(n, ast.Continue) for n in body_nodes) or any(isinstance(n, ast.Name) and n.id in names and isinstance(n.ctx, ast.Store) for n in body_nodes):
+                continue
+            if any(isinstance(n, ast.Name) and n.id in names for st_ in blk[i + 1:] for n in ast.walk(st_)):
+                continue  # the loop variables are read after the loop
+            breaks = [n for n in body_nodes if isinstance(n, ast.Break)]
+
+            def inst(stmts, cells):
+                class Sub(ast.NodeTransformer):
+                    def visit_Name(self, node):
+                        if isinstance(node.ctx, ast.Load) and node.id in names:
+                            return ast.copy_location(acopy(cells[names.index(node.id)]), node)
+                        return node
+                return [Sub().visit(acopy(s_)) for s_ in stmts]
+
+            new: Optional[List[ast.stmt]] = None
+            if not breaks and not loop.orelse:
+                new = [s_ for cells, _ in rows for s_ in inst(loop.body, cells)]
+            elif len(loop.body) == 1 and isinstance(loop.body[0], ast.If) and not loop.body[0].orelse and loop.body[0].body \
+                    and isinstance(loop.body[0].body[-1], ast.Break) and len(breaks) == 1:
+                chain: List[ast.stmt] = list(loop.orelse)
+                for cells, _ in reversed(rows):
+                    test = inst([ast.Expr(value=loop.body[0].test)], cells)[0].value
+                    body = inst(loop.body[0].body[:-1], cells) or [ast.copy_location(ast.Pass(), loop)]
+                    chain = [ast.copy_location(ast.If(test=test, body=body, orelse=chain), loop)]
+                new = chain
+            if new is None:
+                continue
+            blk[blk.index(loop):blk.index(loop) + 1] = new
+            if drop_local is not None and drop_local in fn.body:
+                fn.body.remove(drop_local)
+            log.append(f"{modname}.{fn.name}: first-match loop over a literal table unrolled at line {loop.lineno}")
+    ast.fix_missing_locations(fn)
 
 
 def _pure_elt(e: ast.AST, imp: Dict[str, str]) -> bool:
